@@ -22,7 +22,8 @@ ORD == 31               \* group order: larger than every size bound of the mode
 MaxMsg == 9             \* values above are hashed (Lm)
 \* the hash of an oversize value lands in 5..9, where no genuine small value lives (collision freedom)
 Hsh(x) == CASE x = 40 -> 5 [] x = 31 -> 6 [] x = 33 -> 8 [] x = 34 -> 9 [] OTHER -> 7
-Rep(x) == IF x <= MaxMsg THEN x ELSE Hsh(x)
+\* (the hash is taken over the magnitude: big.Int.Bytes() does not see the sign)
+Rep(x) == IF x < 0 THEN (IF 0 - x <= MaxMsg THEN x ELSE Hsh(0 - x)) ELSE IF x <= MaxMsg THEN x ELSE Hsh(x)
 Idx == 0..(NAttr + 2)     \* NAttr+1, NAttr+2: bases of the key beyond the credential's attributes (nothing signed there = exponent 0)
 Real == 0..NAttr
 AttrVals == {0, 2, 3, 40}       \* zero, two small values, one oversize value
@@ -49,7 +50,9 @@ Init == /\ m \in [Idx -> AttrVals] /\ m[0] \in SecretVals /\ (\A i \in Idx \ Rea
         /\ ecoef = "true" /\ vcoef = "true" /\ erc = "in" /\ sess = "same" /\ ndev = 0
 
 Dev == ndev < MaxDev /\ ndev' = ndev + 1 /\ UNCHANGED m
-Claims(i) == {0, 2, 3, 40} \cup (IF m[i] <= MaxMsg THEN {m[i] + ORD} ELSE {})
+\* values a prover may report: the value classes, the signed value shifted by the group order, and the NEGATION of the signed
+\* value (never what the issuer signed: attribute values are nonnegative; -1 is the model's marker for "not reported")
+Claims(i) == {0, 2, 3, 40} \cup (IF m[i] <= MaxMsg THEN {m[i] + ORD} ELSE {}) \cup (IF m[i] > 1 THEN {0 - m[i]} ELSE {})
 
 \* change a disclosed value (no compensation)
 AlterDisclosed == \E i \in Idx : \E a \in Claims(i) :
@@ -96,7 +99,8 @@ Spec == Init /\ [][Next]_vars
 D == {i \in Idx : disc[i] # -1}
 H == {i \in Idx : hid[i].on}
 Small(s) == s >= 0 - MaxMsg /\ s <= MaxMsg          \* |c*s| stays far below the response bound
-KeySetOK == OverlapRule => D \cap H = {}
+KeySetOK == /\ OverlapRule => D \cap H = {}
+            /\ \A i \in D : disc[i] >= 0            \* ProofD.validate refuses negative disclosed values
 SizesOK == /\ \A i \in H : Small(hid[i].s) /\ hid[i].rc \in {"in", "max"}
            /\ ecoef # "shift" /\ erc \in {"in", "max"}
 Coef(i) == (IF i \in H THEN hid[i].s ELSE 0) + (IF i \in D THEN Rep(disc[i]) ELSE 0) - Rep(m[i])
@@ -107,7 +111,7 @@ EqOK == IF ecoef = "zeroA" THEN FALSE
 VerifyD == KeySetOK /\ SizesOK /\ EqOK /\ sess = "same"
 
 \* ---------------------------------------------------------------- property C01
-Authentic == VerifyD => /\ \A i \in D : Rep(disc[i]) = Rep(m[i])
+Authentic == VerifyD => /\ \A i \in D : Rep(disc[i]) = Rep(m[i]) /\ disc[i] >= 0
                         /\ D \cap H = {}
                         /\ \A i \in H : hid[i].rc \in {"in", "max"}
 \* property C04, model side: the honest proof of every disclosure set verifies and reports exactly that set
